@@ -343,10 +343,14 @@ def exec_while(ex, st, stmt):
     else:
         raise Unsupported("loop havoc set did not stabilise")
     out = []
+    variant = getattr(spec, "variant", None) if spec is not None else None
+    v_head = variant(mkctx(head)) if variant is not None else None
     for s, ctl in body_results:
         if ctl[0] in (NORMAL, CONTINUE):
             if inv is not None:
                 oblige(ex, s, "inv-preserve", "%s#%d" % (spec.label, ordinal), inv(mkctx(s)))
+            if variant is not None:
+                oblige(ex, s, "inv-variant", "%s#%d" % (spec.label, ordinal), z3.And(v_head >= 0, variant(mkctx(s)) < v_head))
             loop_frame(ex, s, entry, head, modH, mutates, ordinal)
             ex.dead_paths.append(s)
         elif ctl[0] == BREAK:
